@@ -147,7 +147,7 @@ pub fn check_cov_f<F: Fl>(c: &CovCase) -> CheckResult {
     }
     let ddof = F::from64(f64::from_bits(c.ddof));
     let dof = n as f64 - ddof.to64();
-    if !(ddof >= F::zero()) || dof < 0.5 {
+    if !(ddof >= F::zero()) || dof < 0.2 {
         return Ok(Info::discarded());
     }
     let r = cov_reference(&rows);
@@ -266,20 +266,35 @@ fn cov_strategy() -> impl Strategy<Value = CovCase> {
     (any::<bool>(), 1usize..=8, 2usize..=64, layout_strategy(2))
         .prop_flat_map(|(f32_, vars, obs, layout)| {
             let obs = if f32_ { obs.min(32) } else { obs };
-            let ddof = prop_oneof![Just(0.0f64), Just(1.0f64), (1u32..4).prop_map(|k| k as f64 * 0.25), (0usize..obs - 1).prop_map(|k| k as f64 + 0.5)];
+            // incl. fractional values between n-1 and n (still < n, so documented to work)
+            let ddof = prop_oneof![3 => Just(0.0f64), 3 => Just(1.0f64), 2 => (1u32..4).prop_map(|k| k as f64 * 0.25), 2 => (0usize..obs - 1).prop_map(|k| k as f64 + 0.5), 1 => Just(obs as f64 - 0.5), 1 => Just(obs as f64 - 0.25)];
             (
                 Just((f32_, vars, obs, layout)),
                 proptest::collection::vec(float_data(f32_, obs), vars),
+                // common power-of-two scale of the whole matrix (covariance scales with its square)
+                prop_oneof![6 => Just(0i32), 1 => Just(300i32), 1 => Just(-300i32), 1 => Just(120i32), 1 => Just(-120i32)],
                 ddof,
                 0usize..8,
                 prop_oneof![Just(2.0f64), Just(0.25f64), Just(1024.0f64), 0.1f64..10.0],
                 prop_oneof![Just(0.0f64), -10.0f64..10.0],
             )
         })
-        .prop_map(|((f32_, vars, obs, layout), rows, ddof, scale_row, a, b)| {
-            let data: Vec<u64> = rows.into_iter().flatten().map(|v| v as u64).collect();
+        .prop_map(|((f32_, vars, obs, layout), rows, scale, ddof, scale_row, a, b)| {
+            let data: Vec<u64> = rows
+                .into_iter()
+                .flatten()
+                .map(|v| {
+                    if scale == 0 {
+                        v as u64
+                    } else if f32_ {
+                        (f32::from_bits(v as u32) * 2f32.powi(scale / 10)).to_bits() as u64
+                    } else {
+                        (f64::from_bits(v as u64) * 2f64.powi(scale)).to_bits()
+                    }
+                })
+                .collect();
             let (a, b) = if f32_ { ((a as f32) as f64, (b as f32) as f64) } else { (a, b) };
-            CovCase { f32_, vars, obs, layout, data, ddof: ddof.min(obs as f64 - 1.0).to_bits(), scale_row, scale_a: a.to_bits(), scale_b: b.to_bits() }
+            CovCase { f32_, vars, obs, layout, data, ddof: ddof.to_bits(), scale_row, scale_a: a.to_bits(), scale_b: b.to_bits() }
         })
 }
 
@@ -548,7 +563,13 @@ fn dev_strategy() -> impl Strategy<Value = DevCase> {
                 }
             };
             let own = || proptest::sample::select(vec![Own3::View, Own3::View, Own3::Owned, Own3::Shared]);
-            (Just((ty, shape, la, lb)), vals(n), vals(n), proptest::collection::vec(any::<bool>(), n), own(), own(), 1i128..256)
+            let maxv = match ty {
+                DTy::I32 => prop_oneof![3 => 1i128..256, 2 => 40_000i128..65_536, 1 => Just(i32::MAX as i128)].boxed(),
+                DTy::I64 | DTy::Big => prop_oneof![3 => 1i128..256, 2 => (1i128 << 31)..(1i128 << 33), 1 => Just(i64::MAX as i128 / 2)].boxed(),
+                DTy::F64 => prop_oneof![3 => 1i128..256, 1 => Just(100_000_000_000_000_000_000i128)].boxed(),
+                DTy::F32 => prop_oneof![3 => 1i128..256, 1 => Just(100_000_000_000_000_000_000i128)].boxed(),
+            };
+            (Just((ty, shape, la, lb)), vals(n), vals(n), proptest::collection::vec(any::<bool>(), n), own(), own(), maxv)
         })
         .prop_map(|((ty, shape, layout_a, layout_b), a, mut b, same, own_a, own_b, maxv)| {
             // make a share of the positions equal so count_eq is informative
@@ -804,6 +825,8 @@ fn ent_strategy() -> impl Strategy<Value = EntCase> {
                 8 => (1u32..4096).prop_map(|k| k as f64 / 4096.0),
                 2 => Just(0.0f64),
                 2 => (-12i32..6, 1u32..64).prop_map(|(e, m)| m as f64 * 2f64.powi(e)),
+                // tiny but non-zero (must still contribute: only an exact zero is skipped)
+                1 => (60i32..100, 1u32..64).prop_map(|(e, m)| m as f64 * 2f64.powi(-e)),
             ];
             let with_nan = prop_oneof![40 => elem.clone(), 1 => Just(f64::NAN)];
             (Just((f32_, shape, lp, lq, normalised)), proptest::collection::vec(with_nan.clone(), n), proptest::collection::vec(with_nan, n), 0u8..10)
